@@ -137,6 +137,22 @@ def global_state_scan(art):
     return hits
 
 
+def hash_eq_scan():
+    """types that derive Hash but implement PartialEq by hand: as keys of a HashMap their lookups depend on the per-process hash seed whenever
+    two values compare equal but hash differently (std requires k1 == k2 => hash(k1) == hash(k2))"""
+    hits = []
+    for crate in ("sylt-common", "sylt-tokenizer", "sylt-parser", "sylt-compiler"):
+        d = common.repo_path(os.path.join(crate, "src"))
+        for f in sorted(os.listdir(d)):
+            if not f.endswith(".rs"): continue
+            src = open(os.path.join(d, f)).read()
+            for m in re.finditer(r"#\[derive\(([^)]*)\)\]\s*(?:pub(?:\([^)]*\))?\s+)?(?:struct|enum)\s+(\w+)", src):
+                derives = [x.strip() for x in m.group(1).split(",")]; name = m.group(2)
+                if "Hash" in derives and "PartialEq" not in derives and re.search(r"impl\s+PartialEq\s+for\s+%s\b" % name, src) and not re.search(r"impl\s+(std::hash::)?Hash\s+for\s+%s\b" % name, src):
+                    hits.append((crate + "/src/" + f, name))
+    return hits
+
+
 def history_check(art, tier):
     """sequences of two compilations in one thread vs the second alone"""
     progs = {
@@ -208,6 +224,13 @@ def run(tier):
         if len(samples) < 5: samples.append({"template": r["name"], "iteration_orders_explored": r["paths"], "distinct_results": r["distinct_outcomes"], "hash_iteration_sites": r["sites"]})
     gs = global_state_scan(art)
     # history independence: B compiled after A (same thread, same process) must give what B gives in a fresh process
+    for where, ty in hash_eq_scan():
+        fnd.report("hash-inconsistent-with-eq:" + ty, "%s: `%s` derives Hash over all its fields but implements PartialEq by hand, so equal values can hash differently and HashMap / HashSet lookups keyed by it depend on the hash seed" % (where, ty), {"note.txt": where + " " + ty})
+    # duplicates inside hash-keyed declarations: many fresh processes, the outcome must never vary
+    for nm, text in (("duplicate_blob_field", "Aa :: blob {\n    x: int,\n    x: int,\n}\nstart :: fn do\nend\n"), ("duplicate_enum_variant", "Ee :: enum\n    X,\n    X,\nend\nstart :: fn do\nend\n"), ("duplicate_blob_field_same_line", "Aa :: blob { x: int, x: str }\nstart :: fn do\nend\n")):
+        k = 120 if tier == "quick" else 600
+        outs = native_repeat(art["sylt"], {"main.sy": text}, k); nat += k
+        if len(outs) > 1: fnd.report("native-nondeterministic:" + nm, "%s: %d different outcomes in %d runs (exit codes %s)" % (nm, len(outs), k, sorted(set(o[0] for o in outs))), {"main.sy": text}, cmd="for i in $(seq 200); do sylt --no-std -o - main.sy | md5sum; done | sort | uniq -c")
     hist = history_check(art, tier); nat += hist["runs"]
     # the repo's own programs (with the bundled std): fresh processes have fresh hash seeds, every run must print the same bytes
     from luasym import runner
